@@ -135,6 +135,9 @@ func GenE2(prop string, seed uint64) *Program {
 	case "C02":
 		scenario = "casrace"
 		nk = 1
+	case "C17":
+		scenario = "rev-race"
+		nk = 1
 	case "C18":
 		scenario = []string{"subdoc-distinct", "subdoc-mixed"}[r.Intn(2)]
 		nk = 1
@@ -270,6 +273,12 @@ func GenE2(prop string, seed uint64) *Program {
 			}
 			prog.Tasks = append(prog.Tasks, ops)
 		}
+		if prog.NHandles > 1 && r.Chance(35) {
+			// one of several handles is closed while the writers run: feeds started through it must go on
+			// receiving what the other handles write (writes through the closed handle simply fail)
+			prog.Tasks = append(prog.Tasks, []Op{{Kind: "Close", Handle: r.Intn(prog.NHandles)}})
+			prog.NoLin = true
+		}
 	}
 	switch scenario {
 	case "backfill-race":
@@ -374,6 +383,16 @@ func GenE2(prop string, seed uint64) *Program {
 		}
 		prog.NoLin = true
 		prog.NoFeedOracle = true
+	case "rev-race":
+		g.setupDocs(prog, 80)
+		w := weights{"Touch": 10, "GetAndTouchRaw": 4, "Set": 6, "SetXattrs": 4, "Incr": 2, "Delete": 2, "Add": 2, "UpdateXattrs": 2, "WriteCas": 3, "DeleteSubDocPaths": 1, "GetWithXattrs": 2}
+		for t := 0; t < nt; t++ {
+			var ops []Op
+			for i := 0; i < 2+r.Intn(4); i++ {
+				ops = append(ops, g.e2op(g.weighted(w), prog.NHandles))
+			}
+			prog.Tasks = append(prog.Tasks, ops)
+		}
 	case "insert-race":
 		// the key has no body (never written, or deleted with or without xattrs); every client tries to
 		// create it through an insert-style entry point: at most one may succeed
@@ -425,7 +444,11 @@ func GenE2(prop string, seed uint64) *Program {
 			prog.Setup = append(prog.Setup, Op{Kind: "Set", Key: k, Coll: 0, Body: strp(fmt.Sprintf(`{"e":%d}`, i)), ExpKind: 2, ExpVal: uint32(1 + r.Intn(4))})
 		}
 		if r.Chance(60) {
-			prog.Feeds = append(prog.Feeds, FeedSpec{ID: "f0", Handle: r.Intn(prog.NHandles), Coll: 0})
+			fs := FeedSpec{ID: "f0", Handle: r.Intn(prog.NHandles), Coll: 0}
+			if r.Chance(50) {
+				fs.Backfill, fs.Ckpt = "resume", "cp" // a checkpointing feed writes its checkpoint when it is stopped
+			}
+			prog.Feeds = append(prog.Feeds, fs)
 		}
 		w := weights{"Set": 6, "Add": 2, "Delete": 3, "Incr": 2, "WriteCas": 2, "GetRaw": 3, "Touch": 3, "Update": 2, "SetXattrs": 1, "WriteSubDoc": 1}
 		sleepFirst := r.Chance(60)
